@@ -31,6 +31,13 @@ func vh_C10_L1_admission() {
 	vassume(cwnd <= 1<<24 && rwnd <= 1<<24)
 	a.cwnd = cwnd
 	a.rwnd = rwnd
+	if inflightBefore > 0 && vPick(2) == 1 {
+		// a tail-loss probe timer fired while data was waiting: the recovery episode it starts
+		// does not suspend the congestion window for the first send of a flush
+		a.onPTOTimer()
+		vassert(a.tlrActive, "tail-loss recovery is active")
+		vassert(a.cwnd == cwnd, "the probe timer alone does not change the window")
+	}
 	pendingBefore := a.pendingQueue.size()
 	nextTSN := a.myNextTSN
 	budget, consumed := int64(0), false
